@@ -24,15 +24,15 @@ Definition punct (k : kind) : bool :=
 Lemma closedk_nice k : closedk k = true -> nice k = true.
 Proof. destruct k; try discriminate; reflexivity. Qed.
 
-Lemma glue_closed a b : closedk a = true -> nice b = true -> needs_sep a b = false.
+Lemma glue_closed a b : closedk a = true -> valid_kind b = true -> needs_sep a b = false.
 Proof.
-  intros Ha Hb. unfold needs_sep. rewrite (spell_total b (nice_valid b Hb)).
+  intros Ha Hb. unfold needs_sep. rewrite (spell_total b Hb).
   destruct a; try discriminate Ha; reflexivity.
 Qed.
 
-Lemma glue_end_punct a b : nice a = true -> eend a = true -> punct b = true -> needs_sep a b = false.
+Lemma glue_end_punct a b : valid_kind a = true -> eend a = true -> punct b = true -> needs_sep a b = false.
 Proof.
-  intros Hn He Hp. unfold needs_sep. rewrite (spell_total a (nice_valid a Hn)).
+  intros Hn He Hp. unfold needs_sep. rewrite (spell_total a Hn).
   destruct b; try discriminate Hp; clear Hp;
     (match goal with |- match spell ?b with _ => _ end = _ =>
        let v := eval vm_compute in (spell b) in change (spell b) with v end);
@@ -90,15 +90,15 @@ Proof. induction t; cbn [fl_type]; ends_tac. Qed.
 (* marks the whitespace the printers emit *)
 Definition gp (g : text) : text := g.
 
-Lemma Wv_hd_nice ks t : Wv ks t -> nice (hdk ks) = true.
+Lemma Wv_hd_valid ks t : Wv ks t -> valid_kind (hdk ks) = true.
 Proof.
-  intros H. pose proof (Wv_nice ks t H) as Hn. pose proof (Wv_nonempty ks t H) as Hne.
+  intros H. pose proof (Wv_valid ks t H) as Hn. pose proof (Wv_nonempty ks t H) as Hne.
   destruct ks as [|k ks]; [congruence|]. cbn [forallb] in Hn. apply andb_true_iff in Hn. exact (proj1 Hn).
 Qed.
 
-Lemma Wv_last_nice ks t : Wv ks t -> nice (lastk ks) = true.
+Lemma Wv_last_valid ks t : Wv ks t -> valid_kind (lastk ks) = true.
 Proof.
-  intros H. pose proof (Wv_nice ks t H) as Hn. pose proof (Wv_nonempty ks t H) as Hne.
+  intros H. pose proof (Wv_valid ks t H) as Hn. pose proof (Wv_nonempty ks t H) as Hne.
   rewrite forallb_forall in Hn. apply Hn. unfold lastk. destruct ks as [|k ks]; [congruence|].
   clear. revert k. induction ks as [|k' ks IH]; intros k; [left; reflexivity|].
   right. change (In (last (k' :: ks) Eof) (k' :: ks)). apply IH.
@@ -106,20 +106,20 @@ Qed.
 
 Lemma Wv_sp ks1 ks2 t1 g t2 :
   Wv ks1 t1 -> Wv ks2 t2 -> forallb gapc g = true -> g <> [] -> Wv (ks1 ++ ks2) (t1 ++ gp g ++ t2).
-Proof. intros H1 H2 Hg Hne. apply Wv_app; [exact H1 | exact H2 | apply sepok_ne; assumption]. Qed.
+Proof. intros H1 H2 Hg Hne. apply Wv_app; [exact H1 | exact H2 | apply sepok_ne; [apply (Wv_last ks1 t1 H1) | assumption | assumption]]. Qed.
 
 Lemma Wv_sub_punct ks1 ks2 t1 t2 :
   Wv ks1 t1 -> ends_e ks1 -> Wv ks2 t2 -> punct (hdk ks2) = true -> Wv (ks1 ++ ks2) (t1 ++ t2).
 Proof.
   intros H1 [_ He] H2 Hp. apply Wv_app0; [exact H1 | exact H2|].
-  apply glue_end_punct; [apply (Wv_last_nice ks1 t1 H1) | exact He | exact Hp].
+  apply glue_end_punct; [apply (Wv_last_valid ks1 t1 H1) | exact He | exact Hp].
 Qed.
 
 Lemma Wv_sub_closed ks1 ks2 t1 t2 :
   Wv ks1 t1 -> closedk (lastk ks1) = true -> Wv ks2 t2 -> Wv (ks1 ++ ks2) (t1 ++ t2).
 Proof.
   intros H1 Hc H2. apply Wv_app0; [exact H1 | exact H2|].
-  apply glue_closed; [exact Hc | apply (Wv_hd_nice ks2 t2 H2)].
+  apply glue_closed; [exact Hc | apply (Wv_hd_valid ks2 t2 H2)].
 Qed.
 
 Lemma Wv_tok_sp k ks g t :
@@ -367,4 +367,39 @@ Proof.
   intros Hn H. cbn [fmt_ref_texpr].
   destruct (with_from_At toks off 0 (fl_type t) (fun t' => fmt_texpr (x_type 0 t) t')) as [E A]; [at_solve|].
   rewrite E. exact (type_prints t _ 0 Hn A).
+Qed.
+
+(* ================================================================================================
+   6. A variable whose first token carries leading comments (the leading comments of an assignment)
+   ================================================================================================ *)
+Fixpoint var_lead (v : avar) : cs :=
+  match v with AName c _ => c | AIndex v' _ _ _ => var_lead v' end.
+
+Fixpoint var_code (v : avar) : list kind :=
+  match v with
+  | AName _ x => [Ident x]
+  | AIndex v' c1 e c2 => var_code v' ++ cm c1 ++ LBracket :: fl_cmp e ++ cm c2 ++ [RBracket]
+  end.
+
+Lemma fl_var_lead v : fl_var v = cm (var_lead v) ++ var_code v.
+Proof.
+  induction v as [c x|v' IH c1 e c2]; cbn [fl_var var_lead var_code]; [reflexivity|].
+  rewrite IH, <- app_assoc. reflexivity.
+Qed.
+
+Lemma ends_var_code v : ends_e (var_code v).
+Proof. destruct v; cbn [var_code]; ends_tac. Qed.
+
+Lemma var_lead_prints v : forall toks o,
+  forallb nice (var_code v) = true -> At toks o (fl_var v) -> prints fmt_var (x_var o v) toks (var_code v).
+Proof.
+  induction v as [c x|v' IH c1 e c2]; intros toks o Hn H; unfold prints.
+  - cbn [x_var]. unfold x_ident. rewrite fmt_var_named. cbn [id_val var_code] in *. nice_split.
+    exists (sh (Ident x)). split; [reflexivity | wv].
+  - cbn [var_code fl_var] in *. nice_split. cbn [x_var]. cbn [cm map app length] in *. rewrite fmt_var_idx. at_split.
+    assert (IH1 := ref_expr_ok e toks (o + length (fl_var v') + 0 + 1) (cmp_prints e) ltac:(assumption) ltac:(at_solve)).
+    use_prints IH1.
+    assert (IH2 := IH toks o ltac:(assumption) ltac:(at_solve)). use_prints IH2.
+    eexists. split; [reflexivity|].
+    apply Wv_sub_punct; [eassumption | apply ends_var_code | wv | reflexivity].
 Qed.
